@@ -130,3 +130,6 @@ pub fn sym_b() -> String { String::new() }
 #[derive(TS)] pub struct DP1<T> { #[ts(skip)] pub a: En1<T>, #[ts(type = "string")] pub b: FL1<T>, #[ts(as = "P1<T>")] pub c: G1<T>, pub d: HashMap<Inner<T>, bool>, pub e: Option<(En2<T>, Vec<P2<T>>)> }
 #[derive(TS)] pub enum DP2<T> { A(Inner<T>), #[ts(skip)] B(En1<T>), #[ts(type = "number")] C(FL1<T>), #[ts(as = "P1<T>")] D(G1<T>), E { x: En2<T>, #[ts(skip)] y: G7<T> }, F(#[ts(skip)] G8<T>, P2<T>) }
 #[derive(TS)] #[ts(tag = "t", content = "c")] pub enum DP3<T> { A(Inner<T>), B { x: En2<T> }, #[ts(skip)] C(En1<T>) }
+#[derive(TS)] pub enum EK1 { A, B }
+#[derive(TS)] pub struct IM1<T> { #[ts(inline)] pub m: HashMap<EK1, T>, #[ts(inline)] pub v: Vec<HashMap<EK1, Inner<T>>> }
+#[derive(TS)] pub struct IM2<T> { pub m: HashMap<EK1, T>, pub o: Option<Vec<(EK1, Inner<T>)>> }
